@@ -81,6 +81,7 @@ func Exec(req *kernel.Request) (resp *kernel.Response) {
 		resp.Key = cl.key()
 		resp.Enabled = cl.enabled()
 		resp.KeyText = cl.lastKeyText
+		resp.Conf = cl.conf()
 		if req.Trace {
 			cl.notes = append(cl.notes, "KEY:\n"+cl.lastKeyText)
 		}
